@@ -309,7 +309,7 @@ func blankStatementsRuleSSA(r *Run, rule string, pm *parserModel) {
 		return
 	}
 	inline := func(caller, callee *ssa.Function) bool {
-		return callee.Pkg == fn.Pkg && callee.Signature.Recv() == nil && !funcHasLoop(callee)
+		return pkgOf(callee) == fn.Pkg && callee.Signature.Recv() == nil && !funcHasLoop(callee)
 	}
 	paths, ok := walkPathsUnrolled(fn, nil, inline, 50000)
 	if !ok {
